@@ -64,57 +64,108 @@ end IrefVerif.Lemmas
 namespace IrefVerif.Model
 open IrefVerif IrefVerif.Spec IrefVerif.Lemmas
 
-/-- the theorem of `Props/C15.lean` whose hypotheses the pair meets (`oracle-only`: none) -/
-def relClass (a b : Text) : String :=
-  let A := split a
-  let B := split b
-  if Findings.f12 a b then "f12"
-  else if Ref.relative_to a b == Ref.whole a then
-    -- roundtrip_whole_fallback_partial / _noauth_partial
-    if A.authority.isSome && nsegs A.path != [[]] then "whole-authority"
-    else if A.authority.isNone && isAbs A.path && (nsegs A.path).head? != some [] then "whole-noauth-absolute"
-    else if A.authority.isNone && !isAbs A.path && (nsegs A.path).head? != some []
-        && (nsegs A.path).getLast? != some segDotDot then "whole-noauth-rootless"
-    else "oracle-only-whole"
-  else
-    let sameScheme := A.scheme == B.scheme
-    let sameAuth := A.authority.map authKey == B.authority.map authKey
-    let hpb := isAbs B.path || (B.path.isEmpty && B.authority.isSome)
-    let hcls := (!(remainder a b).2.2 && (remainder a b).1.head? == some []) == false
-    let hhd := B.authority.isSome ||
-      ((nsegs A.path).head? != some [] && (nsegs (Path.parent_or_empty B.path)).head? != some [])
-    if sameScheme && A.authority.isNone && B.authority.isNone && !isAbs A.path && !isAbs B.path then
-      -- roundtrip_on_class_rootless_partial
-      if (nsegs A.path).head? != some segDotDot && (nsegs (Path.parent_or_empty B.path)).head? != some segDotDot
-          && nsegs A.path != [] && hcls
-          && (nsegs A.path).head? != some [] && (nsegs (Path.parent_or_empty B.path)).head? != some []
-          && !sdCond a b then "class-rootless" else "oracle-only-rootless"
-    else if !(sameScheme && sameAuth && isAbs A.path && hpb) then "oracle-only-relative-paths"
-    else if nsegs A.path == [] then
-      -- roundtrip_root_partial / _noauth_partial
-      if nsegs (Path.parent_or_empty B.path) != [] && !sdCond a b then "root" else "oracle-only-root"
-    else if !hcls then "oracle-only"
-    else if sdCond a b then "same-document"
-    else if hhd then (if B.authority.isSome then "class-authority" else "class-noauth")
-    else "oracle-only"
+/-- the cases of `Props/C15.lean` -/
+inductive RelCls
+  | f12 | wholeAuthority | wholeNoauthAbsolute | wholeNoauthRootless | wholeOther
+  | classRootless | rootlessOther | root | rootOther | sameDocument | classAuthority | classNoauth | other
+  deriving DecidableEq, Repr
 
-/-- the theorem of `Props/C06.lean` whose hypotheses the pair meets (`oracle-only-…`: none; `f15`:
-the open finding) -/
-def resolveClass (base r : Text) : String :=
+/-- a theorem of `Props/C15.lean` speaks about the case -/
+def RelCls.covered : RelCls → Bool
+  | .f12 | .wholeOther | .rootlessOther | .rootOther | .other => false
+  | _ => true
+
+def RelCls.name : RelCls → String
+  | .f12 => "f12"
+  | .wholeAuthority => "whole-authority"              -- roundtrip_whole_fallback_partial
+  | .wholeNoauthAbsolute => "whole-noauth-absolute"   -- roundtrip_whole_fallback_noauth_partial
+  | .wholeNoauthRootless => "whole-noauth-rootless"   -- roundtrip_whole_fallback_rootless_partial
+  | .wholeOther => "oracle-only-whole"
+  | .classRootless => "class-rootless"                -- roundtrip_on_class_rootless_partial
+  | .rootlessOther => "oracle-only-rootless"
+  | .root => "root"                                   -- roundtrip_root_partial / _noauth_partial
+  | .rootOther => "oracle-only-root"
+  | .sameDocument => "same-document"                  -- roundtrip_same_document_partial
+  | .classAuthority => "class-authority"              -- roundtrip_on_class_partial
+  | .classNoauth => "class-noauth"                    -- roundtrip_on_class_noauth_partial
+  | .other => "oracle-only"
+
+/-- the remainder begins with an empty segment and no common directory precedes it -/
+def skipEmpty (a b : Text) : Bool := !(remainder a b).2.2 && (remainder a b).1.head? == some []
+
+/-- the theorem of `Props/C15.lean` whose hypotheses the pair meets; `C15.roundtrip_classified`
+proves the round trip on every covered case -/
+def relCls (a b : Text) : RelCls :=
+  if Findings.f12 a b then .f12
+  else if Ref.relative_to a b == Ref.whole a then
+    if (split a).authority.isSome then (if nsegs (split a).path == [[]] then .wholeOther else .wholeAuthority)
+    else if (nsegs (split a).path).head? == some [] then .wholeOther
+    else if isAbs (split a).path then .wholeNoauthAbsolute
+    else if (nsegs (split a).path).getLast? == some segDotDot then .wholeOther else .wholeNoauthRootless
+  else if (split a).scheme != (split b).scheme then .other
+  else if (split a).authority.isNone && (split b).authority.isNone && !isAbs (split a).path && !isAbs (split b).path then
+    if (nsegs (split a).path).head? == some [cDot, cDot]
+        || (nsegs (Path.parent_or_empty (split b).path)).head? == some [cDot, cDot]
+        || nsegs (split a).path == [] || skipEmpty a b
+        || (nsegs (split a).path).head? == some []
+        || (nsegs (Path.parent_or_empty (split b).path)).head? == some []
+        || sdCond a b then .rootlessOther else .classRootless
+  else if (split a).authority.map authKey != (split b).authority.map authKey || !isAbs (split a).path
+      || !(isAbs (split b).path || ((split b).path.isEmpty && (split b).authority.isSome)) then .other
+  else if nsegs (split a).path == [] then
+    if nsegs (Path.parent_or_empty (split b).path) == [] || sdCond a b then .rootOther else .root
+  else if skipEmpty a b then .other
+  else if sdCond a b then .sameDocument
+  else if (split b).authority.isSome then .classAuthority
+  else if (nsegs (split a).path).head? == some []
+      || (nsegs (Path.parent_or_empty (split b).path)).head? == some [] then .other else .classNoauth
+
+def relClass (a b : Text) : String := (relCls a b).name
+
+/-- the cases of `Props/C06.lean` -/
+inductive ResCls
+  | withAuthority | withScheme | schemeShield | emptyPath | absolutePath | absoluteShield
+  | absolutePathNoauth | f15 | mergeAuthority | ambiguous | mergeNoauthAbsolute | mergeRelativeBase
+  deriving DecidableEq, Repr
+
+/-- a theorem of `Props/C06.lean` speaks about the case -/
+def ResCls.covered : ResCls → Bool
+  | .schemeShield | .absoluteShield | .f15 | .ambiguous => false
+  | _ => true
+
+def ResCls.name : ResCls → String
+  | .withAuthority => "with-authority"            -- resolve_with_authority
+  | .withScheme => "with-scheme"                  -- resolve_scheme_no_authority
+  | .schemeShield => "oracle-only-scheme-shield"
+  | .emptyPath => "empty-path"                    -- resolve_empty_path
+  | .absolutePath => "absolute-path"              -- resolve_absolute
+  | .absoluteShield => "oracle-only-absolute-shield"
+  | .absolutePathNoauth => "absolute-path-noauth" -- resolve_absolute_no_authority
+  | .f15 => "f15"
+  | .mergeAuthority => "merge-authority"          -- resolve_relative_authority
+  | .ambiguous => "oracle-only-ambiguous"
+  | .mergeNoauthAbsolute => "merge-noauth-absolute"   -- resolve_relative_noauthority
+  | .mergeRelativeBase => "merge-relative-base"       -- resolve_relative_relbase
+
+/-- the theorem of `Props/C06.lean` whose hypotheses the pair meets; `C06.resolve_classified`
+proves that on every covered case the model of `resolve` is the RFC transformation -/
+def resolveCls (base r : Text) : ResCls :=
   let B := split base
   let R := split r
-  if R.authority.isSome then "with-authority"                       -- resolve_with_authority
+  if R.authority.isSome then .withAuthority
   else if R.scheme.isSome then
-    if needsShield false false R.path then "oracle-only-scheme-shield" else "with-scheme"
-  else if R.path.isEmpty then "empty-path"                          -- resolve_empty_path
+    if needsShield false false R.path then .schemeShield else .withScheme
+  else if R.path.isEmpty then .emptyPath
   else if isAbs R.path then
-    if B.authority.isSome then "absolute-path"                      -- resolve_absolute
-    else if needsShield false false R.path then "oracle-only-absolute-shield"
-    else "absolute-path-noauth"                                     -- resolve_absolute_no_authority
-  else if Findings.f15 base r then "f15"
-  else if B.authority.isSome then "merge-authority"                 -- resolve_relative_authority
+    if B.authority.isSome then .absolutePath
+    else if needsShield false false R.path then .absoluteShield
+    else .absolutePathNoauth
+  else if Findings.f15 base r then .f15
+  else if B.authority.isSome then .mergeAuthority
   else if isAbs B.path then
-    if startsSS (resolveSpec base r).path then "oracle-only-ambiguous" else "merge-noauth-absolute"
-  else if isAbs (resolveSpec base r).path then "oracle-only-ambiguous" else "merge-relative-base"
+    if startsSS (resolveSpec base r).path then .ambiguous else .mergeNoauthAbsolute
+  else if isAbs (resolveSpec base r).path then .ambiguous else .mergeRelativeBase
+
+def resolveClass (base r : Text) : String := (resolveCls base r).name
 
 end IrefVerif.Model
